@@ -533,10 +533,21 @@ var (
 	c16ParentHash = phase0.Hash32{0x09}
 )
 
-func c16Att() *phase0.Attestation {
-	bits := bitfield.NewBitlist(8)
-	bits.SetBitAt(1, true)
+func c16Att() *phase0.Attestation { return c16AttBits(8) }
+
+func c16AttBits(n uint64) *phase0.Attestation {
+	bits := bitfield.NewBitlist(n)
+	if n > 1 {
+		bits.SetBitAt(1, true)
+		bits.SetBitAt(n-1, true)
+	}
 	return &phase0.Attestation{AggregationBits: bits, Data: &phase0.AttestationData{Slot: c16Slot - 1, Index: 1, Source: &phase0.Checkpoint{Epoch: 2}, Target: &phase0.Checkpoint{Epoch: 3}}}
+}
+
+// c16Atts: the attestations of a block: three for the same slot and committee whose aggregation bits have
+// different lengths (empty, one byte, two bytes) — well-formed JSON, whatever a consensus client thinks of it.
+func c16Atts() []*phase0.Attestation {
+	return []*phase0.Attestation{c16AttBits(0), c16AttBits(8), c16AttBits(16)}
 }
 
 func c16SyncAgg() *altair.SyncAggregate {
@@ -568,7 +579,7 @@ func c16Header(v string, ts uint64) any {
 // c16Block returns a fully populated unsigned block of the given version (blinded where the version has one).
 func c16Block(v string, blinded bool) any {
 	eth1 := &phase0.ETH1Data{BlockHash: make([]byte, 32)}
-	atts := []*phase0.Attestation{c16Att()}
+	atts := c16Atts()
 	ps, as, ds, ve := []*phase0.ProposerSlashing{}, []*phase0.AttesterSlashing{}, []*phase0.Deposit{}, []*phase0.SignedVoluntaryExit{}
 	bc := []*capella.SignedBLSToExecutionChange{}
 	p, s := phase0.Root{1}, phase0.Root{2}
